@@ -22,6 +22,7 @@ from ..ref import of10_match as M
 from ..ref import of10_tablemsgs as W
 from ..ref import frames as F
 from ..gen import framespec as FS
+from ..sim.tableswitch import TableSwitch
 
 ID = "C03"
 LEVEL = "exploration"
@@ -48,9 +49,10 @@ ASSUMPTIONS = [
   "protocol specific fields take part only when the match itself specifies the protocol with a non-wildcarded field "
   "(dl_type 0x0800/0x0806 for nw_src/nw_dst/nw_proto, 0x0800 for nw_tos, additionally nw_proto in {1,6,17} for tp_src/tp_dst); "
   "a wildcarded field's value is never looked at",
-  "an entry is an exact match iff its wire wildcard word has no OFPFW_ALL bit set",
+  "an entry is an exact match iff its wire wildcard word has no OFPFW_ALL bit set; an entry whose only wildcard bits sit on "
+  "fields made inapplicable by the prerequisite rule may rank either as exact or by its priority (either accepted)",
   "not judged (counted as ambiguous): nw_tos when the frame has ECN bits or the match has the low two bits set; dl_vlan_pcp "
-  "against untagged frames; SNAP with a non-zero OUI; 802.3 inside a VLAN tag; QinQ; ARP opcode > 255; transport ports "
+  "against untagged frames where the two readings differ; SNAP with a non-zero OUI; 802.3 inside a VLAN tag; ARP opcode > 255; transport ports "
   "matched with an IP protocol other than ICMP/TCP/UDP",
   "with two matching entries of equal effective priority either may win",
   "frames are well formed (correct lengths and checksums, CFI 0); malformed frames belong to C15",
@@ -295,38 +297,6 @@ def case_direct(c, out):
 
 # --------------------------------------------------------------------------- table path
 
-class _Sw(object):
-  """A SoftwareSwitch on a fake connection; exceptions swallowed by OFConnection.read are recorded."""
-
-  def __init__(self, ports, **kw):
-    world = _POX[2]
-    self.world = world.World()
-    self.end = self.world.add_switch(1, ports=ports, **kw)
-    self.swallowed = []
-    conn = self.end.conn
-    orig = conn._error_handler
-
-    def handler(reason, info):
-      if reason == conn.ERR_EXCEPTION:
-        self.swallowed.append(info[0])
-      else:
-        self.swallowed.append(RuntimeError("OFConnection error %r %r" % (reason, info)))
-      return orig(reason, info)
-    conn._error_handler = handler
-
-  def send(self, data):
-    self.end.rx_bytes(data)
-
-  def replies(self):
-    msgs, rest = W.parse_stream(self.end.take_sent())
-    if rest:
-      raise HarnessError("switch sent a partial message: %r" % rest)
-    return msgs
-
-  def close(self):
-    self.world.close()
-
-
 _TAG0 = 10
 _MAX_ENTRIES = 16
 
@@ -354,7 +324,7 @@ def case_table(c, out):
     pf = M.extract(FS.mkframe(s2), p2)
     m = build_match(pf, e["bits"], e["nws"], e["nwd"], e.get("garbage", 0))
     entries.append({"m": m, "raw": M.pack_match(m), "prio": e["prio"], "port": _TAG0 + i, "idx": i})
-  sw = _Sw(ports=_TAG0 + _MAX_ENTRIES)
+  sw = TableSwitch(ports=_TAG0 + _MAX_ENTRIES)
   try:
     for e in entries:
       sw.send(W.flow_mod(e["raw"], W.OFPFC_ADD, priority=e["prio"], cookie=e["idx"] + 1,
@@ -371,7 +341,7 @@ def case_table(c, out):
     for e in entries:
       live = [o for o in live if not (o["raw"] == e["raw"] and o["prio"] == e["prio"])]
       live.append(e)
-    table = sw.end.sw.table.entries
+    table = sw.table.entries
     pr = [t.effective_priority for t in table]
     if any(pr[i] < pr[i + 1] for i in range(len(pr) - 1)):
       out.fail("table-order", "entries are not sorted by non-increasing effective priority: %r" % (pr,))
@@ -384,6 +354,12 @@ def case_table(c, out):
       eff = lambda e: 0x10001 if M.is_exact(e["m"]) else e["prio"]
       top = max([eff(e) for e in matching]) if matching else None
       winners = [e for e in matching if eff(e) == top]
+      # entries whose only wildcards sit on inapplicable fields may or may not rank as exact
+      eff2 = lambda e: 0x10001 if M.is_exact_semantic(e["m"]) else e["prio"]
+      top2 = max([eff2(e) for e in matching]) if matching else None
+      also = [e for e in matching if eff2(e) == top2 and e not in winners]
+      if also:
+        out.label("probe-exactness-ambiguous")
       out.label("probe-matching=%d" % min(len(matching), 4))
       if matching:
         out.nontrivial = True
@@ -393,9 +369,7 @@ def case_table(c, out):
           out.label("probe-exact-vs-wildcard")
       if len(winners) >= 2:
         out.label("probe-tie")
-      sw.end.take_emitted()
-      sw.end.rx_frame(frame, port)
-      emitted = sw.end.take_emitted()
+      emitted = sw.frame(frame, port)
       msgs = sw.replies()
       pins = [x for x in msgs if x.get("kind") == "packet_in"]
       others = [x for x in msgs if x.get("kind") != "packet_in"]
@@ -437,7 +411,7 @@ def case_table(c, out):
                  "output on port %d which belongs to no live entry; %s" % (ports[0], desc))
         continue
       g = got[0]
-      if g in winners:
+      if g in winners or g in also:
         continue
       if g not in matching:
         k = _mismatch_key(g["m"], frame, port, pf, False)
@@ -516,6 +490,10 @@ def _spec(draw):
   s["l2"] = l2
   if draw(st.booleans()):
     s["vlan"] = [draw(st.integers(0, 7)), draw(st.sampled_from([0, 1, 100, 4094, 4095]))]
+    if draw(st.integers(0, 7)) == 0:
+      s["vlan2"] = [draw(st.integers(0, 7)), draw(st.sampled_from([0, 5, 4095]))]
+  if l2 == "snap" and draw(st.integers(0, 7)) == 0:
+    s["oui"] = draw(st.sampled_from([0x00000c, 0x080007, 1]))
   if l3 == "ip":
     l4 = draw(st.sampled_from(["tcp", "udp", "icmp", "raw"]))
     s.update({"l4": l4, "ip_src": draw(_u32), "ip_dst": draw(_u32), "tos": draw(st.sampled_from([0, 0x20, 0xb8, 0xfc, 0x04])),
